@@ -7,7 +7,9 @@ RULE = ("seeded authoring programs through the public API (1-3 pages of 5 sizes,
         "outline items, title/author/subject) x writer configurations {classic, classic+compress, xref stream, xref stream uncompressed; "
         "versions 1.4/1.5/1.7} plus object-stream configurations (with and without xref streams). file: classic files judged whole by "
         "valid_pdf in Coq and re-emitted by the model; xs: xref-stream files, decoded table re-checked in Coq; strict: library strict re-open "
-        "and full walk (all channels). non-trivial = the document paints something (content stream + resources + references); distinct by file text")
+        "and full walk incl. page count (all channels); every run has object-stream documents with a second (>100 compressible objects) "
+        "and a third (>200) object stream; names: every PDF white-space byte, delimiter and # at three positions + regular + random names through the "
+        "validated entry points add_color_space / add_form_xobject: rejected, or valid file with the name as resource key. non-trivial = the document paints something (content stream + resources + references); distinct by file text")
 
 
 def load_own_findings(r):
@@ -39,7 +41,7 @@ def corpus(r):
                 r.handle_fails(ch, meta, fails, classify)
 
 
-CHANNELS = ["file", "xs", "strict"]
+CHANNELS = ["file", "xs", "strict", "names"]
 
 
 def run(r):
